@@ -15,11 +15,15 @@
 
 #include <hgraph/types/value/value_builder.h>
 
-#ifndef SHAPE
-#define SHAPE 0  // 0 TS<int>  1 TSS<int>  2 TSD<int,TS<int>>  3 TSB{a,b}  4 TSL<TS<int>,2>  5 TSW<int,2,1>  6 SIGNAL  7 TSD<int,TSB{a,b}>
+// shapes: 0 TS<int>  1 TSS<int>  2 TSD<int,TS<int>>  3 TSB{a,b}  4 TSL<TS<int>,2>  5 TSW<int,WN,WMIN>  6 SIGNAL  7 TSD<int,TSB{a,b}>
+#ifndef ONLY_SHAPE
+#define ONLY_SHAPE -1  // -1: the shape is enumerated (verif_choice); 0..7: only that shape (dev runs)
 #endif
 #ifndef NCYC
-#define NCYC 3
+#define NCYC 2  // cycles (TS / SIGNAL / TSW run NCYC+1)
+#endif
+#ifndef BIG_LAST
+#define BIG_LAST NOPS  // operations in the last cycle of the two widest shapes (TSD, TSD<int,TSB>)
 #endif
 #ifndef NOPS
 #define NOPS 2
@@ -36,597 +40,58 @@
 
 using namespace hkts;
 
-namespace {
-constexpr int NC = 3;  // consumers
-struct NM {            // mirror model of one time-series position
-    bool valid = false;
-    DateTime lmt = MIN_DT;
-    I64 val = 0;
-};
-struct Flags {
-    bool mod, valid, delta;
-    DateTime lmt;
-};
-Flags rd(const TSOutputView &v) { return Flags{v.modified(), v.valid(), v.delta_value().has_value(), v.last_modified_time()}; }
-Flags rd(const TSInputView &v) { return Flags{v.modified(), v.valid(), v.delta_value().has_value(), v.last_modified_time()}; }
-
-TSOutput *g_out = nullptr;
-Consumer *g_c[NC] = {nullptr, nullptr, nullptr};
-bool g_bound[NC] = {false, false, false};
-// true while consumer c has seen an invalidation of the bound root position that no write has followed yet
-bool g_inv_gap[NC] = {false, false, false};
-
-// branch-free verdict accumulators (one solver query per id per path)
-bool ok_prod = true, ok_prod_delta = true, ok_value = true, ok_cons = true, ok_cons_inv = true, ok_cons_delta = true,
-     ok_cons_child_delta = true, ok_parent_up = true, ok_parent_only = true, ok_idle = true, ok_struct = true;
-
-void check_prod(const Flags &p, const NM &m, DateTime T) {
-    bool em = m.valid & (m.lmt == T);
-    ok_prod &= (p.mod == em) & (p.valid == m.valid) & (p.lmt == m.lmt);
-    ok_prod_delta &= (p.delta == p.mod);
-}
-// window: the per-tick delta is the pushed element, so it exists <=> an element was pushed at T
-void check_prod_window(const Flags &p, const NM &m, DateTime T, bool pushed_at_T) {
-    bool em = m.valid & (m.lmt == T);
-    ok_prod &= (p.mod == em) & (p.valid == m.valid) & (p.lmt == m.lmt);
-    ok_prod_delta &= (p.delta == pushed_at_T) & ((!p.delta) | p.mod);
-}
-// consumer c at the same position as the producer flags p
-void check_cons(const Flags &p, const Flags &q, int c, bool root_pos) {
-    bool same = (q.mod == p.mod) & (q.valid == p.valid) & (q.lmt == p.lmt);
-    if (root_pos && g_inv_gap[c]) ok_cons_inv &= same; else ok_cons &= same;
-    bool d = (q.delta == p.delta) & ((!q.delta) | q.mod);
-    if (root_pos) { if (g_inv_gap[c]) ok_cons_inv &= d; else ok_cons_delta &= d; }
-    else ok_cons_child_delta &= d;
-}
-void root_written() { for (int c = 0; c < NC; c++) g_inv_gap[c] = false; }
-void root_invalidated() { for (int c = 0; c < NC; c++) if (g_bound[c]) g_inv_gap[c] = true; }
-
-// ------------------------------------------------------------------------------------------------
-#if SHAPE == 0 || SHAPE == 6
-NM g_root;
-const TSValueTypeMetaData *shape_schema() { return SHAPE == 0 ? schemas().ts : schemas().sig; }
-constexpr int N_OPKINDS = 3;  // none, write, invalidate
-void apply_op(int op, DateTime t) {
-    if (op == 1) {
-#if SHAPE == 0
-        I64 v = verif_range("val", -VMAX, VMAX);
-        write_i64(g_out->view(t), t, v);
-        g_root.val = v;
-#else
-        Value tick{true};
-        auto m = g_out->view(t).begin_mutation(t);
-        (void)m.copy_value_from(tick.view());
-#endif
-        if (g_root.valid && g_root.lmt == t) verif_reach("second_write_same_cycle");
-        g_root.valid = true; g_root.lmt = t;
-        root_written();
-    } else if (op == 2) {
-        bool r = invalidate(g_out->view(t), t);
-        ok_struct &= (r == g_root.valid);
-        if (g_root.valid) { verif_reach("invalidated"); g_root.valid = false; g_root.lmt = MIN_DT; root_invalidated(); }
-    }
-}
-void check_all(DateTime T) {
-    auto ov = g_out->view(T);
-    Flags p = rd(ov);
-    check_prod(p, g_root, T);
-#if SHAPE == 0
-    if (g_root.valid) ok_value &= (as_i64(ov.value()) == g_root.val);
-#endif
-    for (int c = 0; c < NC; c++) {
-        if (!g_bound[c]) continue;
-        auto iv = g_c[c]->view(T);
-        check_cons(p, rd(iv), c, true);
-#if SHAPE == 0
-        if (g_root.valid) ok_value &= (as_i64(iv.value()) == g_root.val);
-#endif
-    }
-}
-#endif
-
-// ------------------------------------------------------------------------------------------------
-#if SHAPE == 1
-NM g_root;
-bool g_present[NK];
-const TSValueTypeMetaData *shape_schema() { return schemas().tss; }
-constexpr int N_OPKINDS = 5;  // none, add k, remove k, clear, invalidate
-void apply_op(int op, DateTime t) {
-    if (op == 0) return;
-    if (op == 4) {
-        bool r = invalidate(g_out->view(t), t);
-        ok_struct &= (r == g_root.valid);
-        if (g_root.valid) { verif_reach("invalidated"); g_root.valid = false; g_root.lmt = MIN_DT; root_invalidated(); }
-        return;
-    }
-    auto ov = g_out->view(t);
-    auto os = ov.as_set();
-    auto m = os.begin_mutation(t);
-    if (op == 1 || op == 2) {
-        int k = verif_choice("key", NK);
-        Value key{Int{k}};
-        if (op == 1) { bool r = m.add(key.view()); ok_struct &= (r == !g_present[k]); g_present[k] = true; }
-        else { bool r = m.remove(key.view()); ok_struct &= (r == g_present[k]); if (!r) verif_reach("noop_remove_ticks"); g_present[k] = false; }
-    } else {
-        m.clear();
-        for (int k = 0; k < NK; k++) g_present[k] = false;
-    }
-    g_root.valid = true; g_root.lmt = t;
-    root_written();
-}
-template <class SetView> void check_members(const SetView &s, bool idle) {
-    int n = 0;
-    for (int k = 0; k < NK; k++) {
-        Value key{Int{k}};
-        ok_value &= (s.contains(key.view()) == g_present[k]);
-        n += g_present[k] ? 1 : 0;
-    }
-    ok_value &= ((int)s.size() == n);
-    if (idle) {  // a per-tick delta is readable only during the cycle that produced it
-        int na = 0, nr = 0;
-        for (auto v : s.added()) { (void)v; na++; }
-        for (auto v : s.removed()) { (void)v; nr++; }
-        ok_idle &= (na == 0) & (nr == 0);
-    }
-}
-void check_all(DateTime T, bool idle) {
-    auto ov = g_out->view(T);
-    Flags p = rd(ov);
-    check_prod(p, g_root, T);
-    // NB: after invalidate the set keeps its members (only the validity stamp is cleared)
-    { auto os = ov.as_set(); check_members(os, idle); }
-    for (int c = 0; c < NC; c++) {
-        if (!g_bound[c]) continue;
-        auto iv = g_c[c]->view(T);
-        check_cons(p, rd(iv), c, true);
-        auto is = iv.as_set();
-        check_members(is, idle);
-    }
-}
-#define CHECK_ALL_HAS_IDLE 1
-#endif
-
-// ------------------------------------------------------------------------------------------------
-#if SHAPE == 2
-NM g_root;
-bool g_live[NK];
-NM g_child[NK];
-const TSValueTypeMetaData *shape_schema() { return schemas().tsd; }
-constexpr int N_OPKINDS = 6;  // none, set k v, erase k, clear, child write k v, child invalidate k
-void apply_op(int op, DateTime t) {
-    if (op == 0) return;
-    auto ov = g_out->view(t);
-    auto od = ov.as_dict();
-    if (op == 3) {
-        auto m = od.begin_mutation(t);
-        m.clear();
-        for (int k = 0; k < NK; k++) { g_live[k] = false; g_child[k] = NM{}; }
-        g_root.valid = true; g_root.lmt = t;
-        return;
-    }
-    int k = verif_choice("key", NK);
-    Value key{Int{k}};
-    if (op == 1) {
-        I64 v = verif_range("val", -VMAX, VMAX);
-        Value val{Int{v}};
-        auto m = od.begin_mutation(t);
-        m.set(key.view(), val.view());
-        if (!g_live[k]) verif_reach("key_added");
-        g_live[k] = true; g_child[k] = NM{true, t, v};
-        g_root.valid = true; g_root.lmt = t;
-    } else if (op == 2) {
-        auto m = od.begin_mutation(t);
-        bool r = m.erase(key.view());
-        ok_struct &= (r == g_live[k]);
-        if (g_live[k]) verif_reach("key_erased");
-        g_live[k] = false; g_child[k] = NM{};
-        g_root.valid = true; g_root.lmt = t;
-    } else if (op == 4) {
-        if (!g_live[k]) return;
-        I64 v = verif_range("val", -VMAX, VMAX);
-        auto child = od.at(key.view());
-        write_i64(child, t, v);
-        verif_reach("child_only_write");
-        g_child[k] = NM{true, t, v};
-        g_root.valid = true; g_root.lmt = t;
-    } else if (op == 5) {
-        if (!g_live[k] || !g_child[k].valid) return;
-        auto child = od.at(key.view());
-        bool r = invalidate(child, t);
-        ok_struct &= r;
-        verif_reach("child_invalidated");
-        g_child[k].valid = false; g_child[k].lmt = MIN_DT;
-        g_root.valid = true; g_root.lmt = t;
-    }
-}
-void check_all(DateTime T, bool idle) {
-    auto ov = g_out->view(T);
-    Flags p = rd(ov);
-    check_prod(p, g_root, T);
-    auto od = ov.as_dict();
-    Flags pc[NK];
-    int n = 0;
-    for (int k = 0; k < NK; k++) {
-        Value key{Int{k}};
-        ok_value &= (od.contains(key.view()) == g_live[k]);
-        if (!g_live[k]) continue;
-        n++;
-        auto child = od.at(key.view());
-        pc[k] = rd(child);
-        check_prod(pc[k], g_child[k], T);
-        if (g_child[k].valid) ok_value &= (as_i64(child.value()) == g_child[k].val);
-        ok_parent_up &= (!pc[k].mod) | p.mod;  // a parent is modified whenever one of its children is
-    }
-    ok_value &= ((int)od.size() == n);
-    if (idle) {
-        int cnt = 0;
-        for (auto v : od.added_keys()) { (void)v; cnt++; }
-        for (auto v : od.removed_keys()) { (void)v; cnt++; }
-        for (auto v : od.modified_keys()) { (void)v; cnt++; }
-        ok_idle &= (cnt == 0);
-    }
-    for (int c = 0; c < NC; c++) {
-        if (!g_bound[c]) continue;
-        auto iv = g_c[c]->view(T);
-        check_cons(p, rd(iv), c, true);
-        auto id = iv.as_dict();
-        for (int k = 0; k < NK; k++) {
-            Value key{Int{k}};
-            ok_value &= (id.contains(key.view()) == g_live[k]);
-            if (!g_live[k]) continue;
-            auto child = id.at(key.view());
-            check_cons(pc[k], rd(child), c, false);
-            if (g_child[k].valid) ok_value &= (as_i64(child.value()) == g_child[k].val);
-        }
-        ok_value &= ((int)id.size() == n);
-        if (idle) {
-            int cnt = 0;
-            for (auto v : id.added_keys()) { (void)v; cnt++; }
-            for (auto v : id.removed_keys()) { (void)v; cnt++; }
-            for (auto v : id.modified_keys()) { (void)v; cnt++; }
-            ok_idle &= (cnt == 0);
-        }
-    }
-}
-#define CHECK_ALL_HAS_IDLE 1
-#endif
-
-// ------------------------------------------------------------------------------------------------
-#if SHAPE == 3 || SHAPE == 4
-// fixed-shape parent with two TS<int> children: TSB{a,b} (3) or TSL<TS<int>,2> (4)
-NM g_root;
-NM g_kid[2];
-bool g_inv_event = false;  // a child or the root was (effectively) invalidated in the current cycle
-const TSValueTypeMetaData *shape_schema() { return SHAPE == 3 ? schemas().tsb : schemas().tsl2; }
-constexpr int N_OPKINDS = SHAPE == 3 ? 5 : 4;  // none, write child i, invalidate child i, invalidate root, [TSB: write the whole value]
-TSOutputView out_kid(const TSOutputView &ov, int i) { return ov.indexed_child_at((std::size_t)i); }
-TSInputView in_kid(const TSInputView &iv, int i) { return iv.indexed_child_at((std::size_t)i); }
-void apply_op(int op, DateTime t) {
-    if (op == 0) return;
-    auto ov = g_out->view(t);
-    if (op == 1) {
-        int i = verif_choice("kid", 2);
-        I64 v = verif_range("val", -VMAX, VMAX);
-        write_i64(out_kid(ov, i), t, v);
-        verif_reach("child_only_write");
-        g_kid[i] = NM{true, t, v};
-        g_root.valid = true; g_root.lmt = t;
-        root_written();
-    } else if (op == 2) {
-        int i = verif_choice("kid", 2);
-        bool r = invalidate(out_kid(ov, i), t);
-        ok_struct &= (r == g_kid[i].valid);
-        if (!g_kid[i].valid) return;
-        verif_reach("child_invalidated");
-        g_kid[i].valid = false; g_kid[i].lmt = MIN_DT;
-        g_root.valid = true; g_root.lmt = t;  // the parent ticks: one of its children changed
-        g_inv_event = true;
-        root_written();
-    } else if (op == 3) {
-        bool r = invalidate(ov, t);
-        ok_struct &= (r == g_root.valid);
-        if (!g_root.valid) return;
-        verif_reach("invalidated");
-        for (int i = 0; i < 2; i++) { g_kid[i].valid = false; g_kid[i].lmt = MIN_DT; }
-        g_root.valid = false; g_root.lmt = MIN_DT;
-        g_inv_event = true;
-        root_invalidated();
-    } else if (op == 4) {
-        I64 v0 = verif_range("val", -VMAX, VMAX), v1 = verif_range("val", -VMAX, VMAX);
-        Value a{Int{v0}}, b{Int{v1}};
-        BundleBuilder bb{ValuePlanFactory::instance().type_for(schemas().tsb->value_schema)};
-        bb.set("a", a.view());
-        bb.set("b", b.view());
-        Value whole = bb.build();
-        auto m = ov.begin_mutation(t);
-        (void)m.copy_value_from(whole.view());
-        verif_reach("whole_value_write");
-        g_kid[0] = NM{true, t, v0}; g_kid[1] = NM{true, t, v1};
-        g_root.valid = true; g_root.lmt = t;
-        root_written();
-    }
-}
-void check_all(DateTime T, bool idle) {
-    (void)idle;
-    auto ov = g_out->view(T);
-    Flags p = rd(ov);
-    check_prod(p, g_root, T);
-    Flags pk[2];
-    bool any_kid_mod = false;
-    for (int i = 0; i < 2; i++) {
-        auto kid = out_kid(ov, i);
-        pk[i] = rd(kid);
-        check_prod(pk[i], g_kid[i], T);
-        if (g_kid[i].valid) ok_value &= (as_i64(kid.value()) == g_kid[i].val);
-        ok_parent_up &= (!pk[i].mod) | p.mod;
-        any_kid_mod |= pk[i].mod;
-    }
-    // a fixed-shape parent is modified only when one of its children is (an invalidation of a child is a change of
-    // that child although the invalidated child itself no longer reads modified)
-    ok_parent_only &= (!p.mod) | any_kid_mod | g_inv_event;
-    ok_value &= (ov.all_valid() == (g_kid[0].valid && g_kid[1].valid));
-    for (int c = 0; c < NC; c++) {
-        if (!g_bound[c]) continue;
-        auto iv = g_c[c]->view(T);
-        check_cons(p, rd(iv), c, true);
-        ok_value &= (iv.all_valid() == (g_kid[0].valid && g_kid[1].valid));
-        for (int i = 0; i < 2; i++) {
-            auto kid = in_kid(iv, i);
-            check_cons(pk[i], rd(kid), c, false);
-            if (g_kid[i].valid) ok_value &= (as_i64(kid.value()) == g_kid[i].val);
-        }
-    }
-}
-#define CHECK_ALL_HAS_IDLE 1
-#define HAS_CYCLE_RESET 1
-void cycle_reset() { g_inv_event = false; }
-#endif
-
-// ------------------------------------------------------------------------------------------------
-#if SHAPE == 5
-// TSW<int, WN, WMIN> tick-count window
-#ifndef WN
-#define WN 2
-#endif
-#ifndef WMIN
-#define WMIN 2
-#endif
-NM g_root;
-int g_count = 0;
-I64 g_win[WN];
-bool g_pushed = false;   // an element was pushed in the current cycle (a second push is rejected by the runtime)
-DateTime g_push_t = MIN_DT;
-const TSValueTypeMetaData *shape_schema() { return TypeRegistry::instance().tsw(schemas().i64, WN, WMIN); }
-constexpr int N_OPKINDS = 5;  // none, push v, clear, clear then push v, invalidate
-bool g_scope_used = false;  // the runtime accepts one push and one clear per evaluation time: one window mutation per cycle
-void apply_op(int op, DateTime t) {
-    if (op == 0) return;
-    auto ov = g_out->view(t);
-    if (op == 4) {
-        bool r = invalidate(ov, t);
-        ok_struct &= (r == g_root.valid);
-        if (!g_root.valid) return;
-        verif_reach("invalidated");
-        g_root.valid = false; g_root.lmt = MIN_DT;
-        root_invalidated();
-        return;
-    }
-    if (g_scope_used) return;
-    g_scope_used = true;
-    auto ow = ov.as_window();
-    auto m = ow.begin_mutation(t);
-    if (op == 2 || op == 3) { m.clear(); g_count = 0; verif_reach("window_cleared"); }
-    if (op == 1 || op == 3) {
-        I64 v = verif_range("val", -VMAX, VMAX);
-        Value val{Int{v}};
-        m.push(val.view());
-        if (g_count == WN) { for (int i = 1; i < WN; i++) g_win[i - 1] = g_win[i]; g_count--; verif_reach("window_rolled"); }
-        g_win[g_count++] = v;
-        g_pushed = true; g_push_t = t;
-    }
-    g_root.valid = true; g_root.lmt = t;
-    root_written();
-}
-void check_all(DateTime T, bool idle) {
-    (void)idle;
-    auto ov = g_out->view(T);
-    Flags p = rd(ov);
-    bool pushed_at_T = g_root.valid & (g_push_t == T) & (g_root.lmt == T);
-    check_prod_window(p, g_root, T, pushed_at_T);
-    {
-        auto ow = ov.as_window();
-        ok_value &= ((int)ow.size() == g_count);
-        for (int i = 0; i < g_count; i++) ok_value &= (as_i64(ow.at((std::size_t)i)) == g_win[i]);
-        if (g_root.valid) ok_value &= (ov.all_valid() == (g_count >= WMIN));
-    }
-    for (int c = 0; c < NC; c++) {
-        if (!g_bound[c]) continue;
-        auto iv = g_c[c]->view(T);
-        check_cons(p, rd(iv), c, true);
-        auto iw = iv.as_window();
-        ok_value &= ((int)iw.size() == g_count);
-        for (int i = 0; i < g_count; i++) ok_value &= (as_i64(iw.at((std::size_t)i)) == g_win[i]);
-    }
-}
-#define CHECK_ALL_HAS_IDLE 1
-#define HAS_CYCLE_RESET 1
-void cycle_reset() { g_pushed = false; g_scope_used = false; }
-#endif
-
-// ------------------------------------------------------------------------------------------------
-#if SHAPE == 7
-// one nesting: TSD<int, TSB{a,b}>
-NM g_root;
-bool g_live[NK];
-NM g_elem[NK];
-NM g_fld[NK][2];
-// a key erased and re-created within one cycle is resurrected with its element intact (documented runtime behaviour:
-// tests/cpp "TSD same-cycle resurrection does not reconstruct element storage")
-bool g_erased_now[NK];
-NM g_saved_elem[NK], g_saved_fld[NK][2];
-void forget(int k) {
-    if (g_live[k] && !g_erased_now[k]) { g_erased_now[k] = true; g_saved_elem[k] = g_elem[k]; g_saved_fld[k][0] = g_fld[k][0]; g_saved_fld[k][1] = g_fld[k][1]; }
-    g_live[k] = false; g_elem[k] = NM{}; g_fld[k][0] = NM{}; g_fld[k][1] = NM{};
-}
-const TSValueTypeMetaData *shape_schema() { return schemas().tsd_tsb; }
-constexpr int N_OPKINDS = 5;  // none, write field (k,f) (creating k), erase k, invalidate element k, clear
-void apply_op(int op, DateTime t) {
-    if (op == 0) return;
-    auto ov = g_out->view(t);
-    auto od = ov.as_dict();
-    if (op == 4) {
-        auto m = od.begin_mutation(t);
-        m.clear();
-        for (int k = 0; k < NK; k++) forget(k);
-        g_root.valid = true; g_root.lmt = t;
-        return;
-    }
-    int k = verif_choice("key", NK);
-    Value key{Int{k}};
-    if (op == 1) {
-        int f = verif_choice("kid", 2);
-        I64 v = verif_range("val", -VMAX, VMAX);
-        {
-            auto m = od.begin_mutation(t);
-            auto child = m.at(key.view());
-            TSOutputView elem{g_out, child, t};
-            write_i64(elem.indexed_child_at((std::size_t)f), t, v);
-        }
-        if (!g_live[k]) verif_reach("key_added");
-        else verif_reach("child_only_write");
-        if (!g_live[k] && g_erased_now[k]) {
-            verif_reach("key_resurrected_same_cycle");
-            g_elem[k] = g_saved_elem[k]; g_fld[k][0] = g_saved_fld[k][0]; g_fld[k][1] = g_saved_fld[k][1];
-        }
-        g_live[k] = true;
-        g_fld[k][f] = NM{true, t, v};
-        g_elem[k].valid = true; g_elem[k].lmt = t;
-        g_root.valid = true; g_root.lmt = t;
-    } else if (op == 2) {
-        auto m = od.begin_mutation(t);
-        bool r = m.erase(key.view());
-        ok_struct &= (r == g_live[k]);
-        if (g_live[k]) verif_reach("key_erased");
-        forget(k);
-        g_root.valid = true; g_root.lmt = t;
-    } else if (op == 3) {
-        if (!g_live[k] || !g_elem[k].valid) return;
-        auto elem = od.at(key.view());
-        bool r = invalidate(elem, t);
-        ok_struct &= r;
-        verif_reach("child_invalidated");
-        g_elem[k].valid = false; g_elem[k].lmt = MIN_DT;
-        for (int f = 0; f < 2; f++) { g_fld[k][f].valid = false; g_fld[k][f].lmt = MIN_DT; }
-        g_root.valid = true; g_root.lmt = t;
-    }
-}
-void check_all(DateTime T, bool idle) {
-    (void)idle;
-    auto ov = g_out->view(T);
-    Flags p = rd(ov);
-    check_prod(p, g_root, T);
-    auto od = ov.as_dict();
-    Flags pe[NK], pf[NK][2];
-    for (int k = 0; k < NK; k++) {
-        Value key{Int{k}};
-        ok_value &= (od.contains(key.view()) == g_live[k]);
-        if (!g_live[k]) continue;
-        auto elem = od.at(key.view());
-        pe[k] = rd(elem);
-        check_prod(pe[k], g_elem[k], T);
-        ok_parent_up &= (!pe[k].mod) | p.mod;
-        for (int f = 0; f < 2; f++) {
-            auto fld = elem.indexed_child_at((std::size_t)f);
-            pf[k][f] = rd(fld);
-            check_prod(pf[k][f], g_fld[k][f], T);
-            if (g_fld[k][f].valid) ok_value &= (as_i64(fld.value()) == g_fld[k][f].val);
-            ok_parent_up &= (!pf[k][f].mod) | (pe[k].mod & p.mod);
-        }
-    }
-    for (int c = 0; c < NC; c++) {
-        if (!g_bound[c]) continue;
-        auto iv = g_c[c]->view(T);
-        check_cons(p, rd(iv), c, true);
-        auto id = iv.as_dict();
-        for (int k = 0; k < NK; k++) {
-            Value key{Int{k}};
-            ok_value &= (id.contains(key.view()) == g_live[k]);
-            if (!g_live[k]) continue;
-            auto elem = id.at(key.view());
-            check_cons(pe[k], rd(elem), c, false);
-            for (int f = 0; f < 2; f++) {
-                auto fld = elem.indexed_child_at((std::size_t)f);
-                check_cons(pf[k][f], rd(fld), c, false);
-                if (g_fld[k][f].valid) ok_value &= (as_i64(fld.value()) == g_fld[k][f].val);
-            }
-        }
-    }
-}
-#define CHECK_ALL_HAS_IDLE 1
-#define HAS_CYCLE_RESET 1
-void cycle_reset() { for (int k = 0; k < NK; k++) g_erased_now[k] = false; }
-#endif
-
-#ifndef CHECK_ALL_HAS_IDLE
-void check_all(DateTime T, bool) { check_all(T); }
-#endif
-#ifndef HAS_CYCLE_RESET
-void cycle_reset() {}
-#endif
-}  // namespace
+#define SHAPE 0
+#define SHAPE_NS shape_ts
+#include "C04_flags_shape.inc"
+#undef SHAPE
+#undef SHAPE_NS
+#define SHAPE 1
+#define SHAPE_NS shape_tss
+#include "C04_flags_shape.inc"
+#undef SHAPE
+#undef SHAPE_NS
+#define SHAPE 2
+#define SHAPE_NS shape_tsd
+#include "C04_flags_shape.inc"
+#undef SHAPE
+#undef SHAPE_NS
+#define SHAPE 3
+#define SHAPE_NS shape_tsb
+#include "C04_flags_shape.inc"
+#undef SHAPE
+#undef SHAPE_NS
+#define SHAPE 4
+#define SHAPE_NS shape_tsl
+#include "C04_flags_shape.inc"
+#undef SHAPE
+#undef SHAPE_NS
+#define SHAPE 5
+#define SHAPE_NS shape_tsw
+#include "C04_flags_shape.inc"
+#undef SHAPE
+#undef SHAPE_NS
+#define SHAPE 6
+#define SHAPE_NS shape_signal
+#include "C04_flags_shape.inc"
+#undef SHAPE
+#undef SHAPE_NS
+#define SHAPE 7
+#define SHAPE_NS shape_tsd_tsb
+#include "C04_flags_shape.inc"
+#undef SHAPE
+#undef SHAPE_NS
 
 extern "C" int harness_main() {
-    // ---- concrete set-up (before the first symbolic input)
-    const auto *schema = shape_schema();
-    TSOutput out{*schema};
-    g_out = &out;
-    CountingNotifiable note;
-    Consumer c0{schema, "VerifC04Root"}, c1{schema, "VerifC04Root", &note}, c2{schema, "VerifC04Root"};
-    g_c[0] = &c0; g_c[1] = &c1; g_c[2] = &c2;
-
-    std::int64_t base = verif_range("base", 0, 1000000);
-    DateTime t = MIN_ST + TimeDelta{base};
-    {   // c0 passive, c1 active: bound before the first cycle
-        auto v0 = c0.view(t); v0.bind_output(out.view(t)); g_bound[0] = true;
-        auto v1 = c1.view(t); v1.bind_output(out.view(t)); v1.make_active(); g_bound[1] = true;
+    (void)schemas();  // concrete set-up shared by all shapes
+    int shape = ONLY_SHAPE >= 0 ? ONLY_SHAPE : verif_choice("shape", 8);
+    switch (shape) {
+        case 0: verif_reach("shape_ts"); return shape_ts::run();
+        case 1: verif_reach("shape_tss"); return shape_tss::run();
+        case 2: verif_reach("shape_tsd"); return shape_tsd::run();
+        case 3: verif_reach("shape_tsb"); return shape_tsb::run();
+        case 4: verif_reach("shape_tsl"); return shape_tsl::run();
+        case 5: verif_reach("shape_tsw"); return shape_tsw::run();
+        case 6: verif_reach("shape_signal"); return shape_signal::run();
+        default: verif_reach("shape_tsd_tsb"); return shape_tsd_tsb::run();
     }
-    check_all(t, true);  // nothing written yet: nothing valid, nothing modified, no delta
-    int notified_cycles = 0, write_cycles = 0;
-    for (int cyc = 0; cyc < NCYC; cyc++) {
-        if (cyc > 0) t = t + TimeDelta{verif_range("gap", 1, GMAX)};
-        if (cyc == 1) {  // the late consumer binds at the start of the second cycle
-            auto v2 = c2.view(t); v2.bind_output(out.view(t)); g_bound[2] = true;
-            verif_reach("late_consumer_bound");
-        }
-        int before = note.count;
-        bool any = false;
-        cycle_reset();
-        for (int i = 0; i < NOPS; i++) {
-            int op = verif_choice("op", N_OPKINDS);
-            any |= (op != 0);
-            apply_op(op, t);
-        }
-        if (note.count != before) notified_cycles++;
-        if (any) write_cycles++;
-        check_all(t, false);                 // the cycle itself
-        check_all(t + TimeDelta{1}, true);   // the following idle instant
-        if (!any) verif_reach("idle_cycle");
-    }
-    verif_assert(ok_struct, "C04.mutation_result_matches_model");
-    verif_assert(ok_prod, "C04.producer_modified_valid_lmt");
-    verif_assert(ok_prod_delta, "C04.producer_delta_iff_modified");
-    verif_assert(ok_value, "C04.value_seen_by_producer_and_consumers");
-    verif_assert(ok_cons, "C04.consumer_same_flags_as_producer");
-    verif_assert(ok_cons_delta, "C04.consumer_delta_iff_modified");
-    verif_assert(ok_parent_up, "C04.parent_modified_when_child_is");
-    verif_assert(ok_parent_only, "C04.fixed_parent_modified_only_with_child");
-    verif_assert(ok_idle, "C04.no_delta_at_idle_instant");
-    // the two ids below are contradicted by the unchanged tree (see notes/C04.md); they come last because a
-    // failing assertion ends the path
-    verif_assert(ok_cons_child_delta, "C04.consumer_child_delta_iff_modified");
-    verif_assert(ok_cons_inv, "C04.consumer_same_flags_as_producer_after_invalidate");
-    verif_log("write_cycles", write_cycles);
-    verif_log("notified_cycles", notified_cycles);
-    verif_reach("end");
-    return 0;
 }
